@@ -228,6 +228,7 @@ fn gen_program(kind: TKind, run_seed: u64, tier: Tier) -> TProgram {
         clients,
         keys,
         sched,
+        settle: Vec::new(),
     }
 }
 
@@ -342,6 +343,7 @@ fn gen_c05_program(run_seed: u64, tier: Tier) -> TProgram {
         clients,
         keys,
         sched,
+        settle: Vec::new(),
     }
 }
 
@@ -538,6 +540,7 @@ fn gen_c08_program(run_seed: u64, tier: Tier) -> TProgram {
         clients,
         keys,
         sched,
+        settle: Vec::new(),
     }
 }
 
@@ -780,6 +783,29 @@ impl TCheck {
                         format!("after all clients finished the store holds {} bytes in {} records; limit {} + one record per store that overlapped another (and the last store) {} + last record of the initialisation {} = {}; history: {}", h.stored_bytes_end, h.items_end, limit, per_client, init_last, bound, describe_history(h)),
                     ));
                 }
+                // the sequential bound after each settle store: an accounting error made
+                // during the concurrent phase shows only here
+                for (i, (stored, reclen, acked)) in h.settle.iter().enumerate() {
+                    if !*acked {
+                        continue;
+                    }
+                    let b = limit.saturating_add(*reclen);
+                    if *stored > b && *stored <= b.saturating_add(racing_deletes * largest_record) {
+                        viols.push(Violation::new(
+                            "C14",
+                            "undercount-after-delete-store-race",
+                            format!("after the sequential store #{} that followed the concurrent phase the store holds {} bytes, above limit {} + the record just written {}; explained by {} delete(s) that overlapped a store (the record is subtracted twice from the usage counter); history: {}", i, stored, limit, reclen, racing_deletes, describe_history(h)),
+                        ));
+                        break;
+                    } else if *stored > b {
+                        viols.push(Violation::new(
+                            "C14",
+                            "stored-bytes-exceed-limit-after-concurrent-stores",
+                            format!("after the sequential store #{} that followed the concurrent phase (no store in progress) the store holds {} bytes; limit {} + the record just written {} = {}: the usage counter under-counts what the concurrent phase left behind; history: {}", i, stored, limit, reclen, b, describe_history(h)),
+                        ));
+                        break;
+                    }
+                }
             }
             _ => {}
         }
@@ -859,6 +885,11 @@ impl Check for TCheck {
             fp.u64(o.ret as u64);
         }
         fp.u64(h.stored_bytes_end);
+        for (st, rl, ok) in &h.settle {
+            fp.u64(*st);
+            fp.u64(*rl);
+            fp.u8(*ok as u8);
+        }
         out.fp = fp.0;
         out.nontrivial = h.report.preemptions > 0;
         out.count("scheduling_points", h.report.steps as u64);
